@@ -140,8 +140,9 @@ class HammingIMQKernel(Kernel):
         if diag:
             if x1_eq_x2:
                 res = ((1 + self.alpha) / self.alpha).pow(self.beta)
-                skip_dims = [-1] * len(self.batch_shape)
-                return res.expand(*skip_dims, x1.size(-3))
+                # the diagonal carries the batch dimensions of the inputs as well as the kernel's own
+                batch_shape = torch.broadcast_shapes(x1.shape[:-3], self.batch_shape)
+                return res.expand(*batch_shape, x1.size(-3))
             else:
                 dist = x1.size(-2) - (x1 * x2).sum(dim=(-1, -2))
                 return self._imq(dist)
